@@ -226,6 +226,124 @@ def gen_ringmix(rng, ops):
             "kind": kind, "scheme": hscheme + "/" + pscheme}
 
 
+HETERO = ["N", "O", "S"]
+
+
+def reverse_adjacency(g):
+    """the same graph with every node's adjacency (neighbour dict) order reversed"""
+    h = gens.copy_exact(g)
+    for n in h._adj:
+        h._adj[n] = dict(reversed(list(h._adj[n].items())))
+    return h
+
+
+def hetero_host(rng):
+    """small ring (3-5 atoms) of C and hetero atoms N/O/S, with 1-3 pendant atoms / two-atom chains"""
+    n = rng.choice([3, 4, 4, 4, 5, 5])
+    syms = [rng.choice(["C", "C", "C"] + HETERO) for _ in range(n)]
+    if not any(x in HETERO for x in syms):
+        syms[rng.randrange(n)] = rng.choice(HETERO)
+    host = ring_graph(n, [rng.choice([1, 1, 1, 2]) for _ in range(n)], syms)
+    nxt = n
+    for _ in range(rng.randint(1, 3)):
+        at = rng.randrange(nxt)
+        host.add_node(nxt, symbol=rng.choice(["C", "C", "O", "N"]))
+        host.add_edge(at, nxt, bond=rng.choice([1, 1, 2]))
+        nxt += 1
+    return host, n
+
+
+def gen_hetero(rng, ops):
+    """PLANTED pattern with 5-6 atoms in a hetero-atom host with a small ring: a random connected
+    sub-structure grown from a hetero anchor that goes round / through the ring (usually as a tree, i.e.
+    with the ring-closing bond left out, so that two pattern branches end next to the same host ring atom),
+    some degree-1 pattern atoms turned into the wildcard R: several leaves then compete for the same host
+    atoms and only one distribution of them works.  Anchors on the hetero atoms.  Emitted twice: with the
+    shuffled adjacency orders and with every adjacency order reversed."""
+    host, n = hetero_host(rng)
+    het = [v for v in host.nodes if host.nodes[v]["symbol"] in HETERO]
+    start = rng.choice([v for v in het if v < n] or het)
+    chosen, tree = [start], []
+    want = rng.randint(5, 6)
+    while len(chosen) < want:
+        frontier = [(u, v) for u in chosen for v in host.neighbors(u) if v not in chosen]
+        if not frontier:
+            break
+        ringf = [e for e in frontier if e[1] < n]          # prefer going on round the ring
+        u, v = rng.choice(ringf if ringf and rng.random() < 0.7 else frontier)
+        chosen.append(v)
+        tree.append((u, v))
+    idx = {h: i for i, h in enumerate(chosen)}
+    p = nx.Graph()
+    for h in chosen:
+        p.add_node(idx[h], symbol=host.nodes[h]["symbol"])
+    keep = rng.random() < 0.3                    # 30%: keep the other induced bonds (ring closures) too
+    for u, v, d in host.edges(data=True):
+        if u in idx and v in idx and ((u, v) in tree or (v, u) in tree or keep):
+            p.add_edge(idx[u], idx[v], bond=d["bond"])
+    kind = "hetero"
+    for q in list(p.nodes):
+        if q != 0 and p.degree(q) == 1 and rng.random() < 0.6:
+            p.nodes[q]["symbol"] = "R"
+    if rng.random() < 0.15:
+        kind = "hetero-miss-" + near_miss(rng, p, False)
+    w, ic = rng.choice([("R", True), ("R", True), ("R", False)])
+    op = rng.choice(["anchored", "anchored", "anchored", "sub", "sub_anchor"])
+    host2, hscheme, hm = gens.reid(rng, host)
+    p2, pscheme, pmm = gens.reid(rng, p)
+    anchors = [q for q in idx.values() if q in pmm and p.nodes[q]["symbol"] in HETERO] or [0]
+    q = 0 if rng.random() < 0.6 else rng.choice(anchors)
+    h_of = {i: h for h, i in idx.items()}
+    a, pa = hm[h_of[q]], pmm[q]
+    if op == "sub":
+        pa = None
+    c = {"op": op, "G": host2, "P": p2, "a": a, "pa": pa, "w": w, "ic": ic, "cmtn": [],
+         "kind": kind, "scheme": hscheme + "/" + pscheme}
+    c2 = dict(c, G=reverse_adjacency(host2), P=reverse_adjacency(p2), scheme=c["scheme"] + "+rev")
+    return [c, c2]
+
+
+def gen_history(rng, ops):
+    """a case in which optional symbols would change the answer (planted pattern + pendant H / R atoms that
+    have no counterpart in the host), run under a mapper-construction HISTORY (see build_mapper)"""
+    host = rand_host(rng, 6)
+    for v in host.nodes:                      # no hydrogens in the host: an H in the pattern can only stay unmapped
+        if host.nodes[v]["symbol"] == "H":
+            host.nodes[v]["symbol"] = "C"
+    p, pm = plant(rng, host, 4)
+    w, ic = rng.choice([("R", True), ("R", True), ("R", False), (None, False)])
+    nodes = list(p.nodes)
+    nxt = max(nodes) + 1
+    for sym in rng.choice([["H"], ["H"], ["H", "H"], ["H", "R"], ["R"]]):
+        p.add_node(nxt, symbol=sym)
+        p.add_edge(rng.choice(nodes), nxt, bond=1)
+        nxt += 1
+    hist = rng.choice(["default", "default", "caller-attr", "caller-list", "shared"])
+    cmtn = []
+    if hist != "default":
+        cmtn = rng.choice([[], [], ["H"], ["H", "R"], ["R", "H"]])
+    if hist == "shared":
+        cmtn = rng.choice([["H", "R"], ["R", "H"], ["H"]])
+        w = "R"
+    extra = rng.choice([["H"], ["H"], ["H", "R"], ["R"]])
+    op = rng.choice(["anchored", "anchored", "sub_anchor"])
+    host2, hscheme, hm = gens.reid(rng, host)
+    p2, pscheme, pmm = gens.reid(rng, p)
+    q = rng.choice(list(pm))
+    return {"op": op, "G": host2, "P": p2, "a": hm[pm[q]], "pa": pmm[q], "w": w, "ic": ic, "cmtn": cmtn,
+            "kind": "history-" + hist, "scheme": hscheme + "/" + pscheme, "hist": hist, "hist_extra": extra}
+
+
+def gen_cases(rng, ops, nmax=8):
+    """one random draw: usually one case, two for the families emitted with both adjacency orders"""
+    r = rng.random()
+    if r < 0.08:
+        return gen_hetero(rng, ops)
+    if r < 0.15:
+        return [gen_history(rng, ops)]
+    return [gen_case(rng, ops, nmax)]
+
+
 def gen_case(rng, ops, nmax=8):
     if rng.random() < 0.2:
         return gen_ringmix(rng, ops)
@@ -422,6 +540,70 @@ def ring_scope_cases(tier, pbundle=12, hbundle=6):
                        "cmtn": [], "kind": kind, "scheme": "ring-scope"}
 
 
+# ---- competing-leaves scope (quick and thorough) ------------------------------------------------------
+
+def fork_scope_cases(tier, pbundle=12, hbundle=6):
+    """Small systematic family for ties between pattern LEAVES of different branches.
+    Host: four-ring X-A-Y-B with X = N (anchor), A = B = C, Y in {O, S}, a pendant atom (C or O) on A, on B or
+    on both; every host also with all adjacency orders reversed.  Pattern (anchor X = node 0):
+    X(C-leaves1)(C-leaves2) with one leaf on one branch and one or two on the other (5-6 atoms), leaf symbols
+    from {R, O, S, C}, both orders of the two branches.  The ring atom Y is adjacent to the images of both
+    branch atoms, so a wildcard leaf of one branch and a specific leaf of the other compete for it, and only
+    one distribution of the leaves over Y and the pendant atoms works.  Bundled like the ring scope
+    (op "multi", here with the pattern anchor fixed: map_subgraph(..., subgraph_anchor=0))."""
+    import itertools as it
+    hosts = []
+    for y in ("O", "S"):
+        for pa_, pb_ in it.product([None, "C", "O"], repeat=2):
+            if pa_ is None and pb_ is None:
+                continue
+            g = nx.Graph()
+            for i, sym in enumerate(["N", "C", y, "C"]):
+                g.add_node(i, symbol=sym)
+            nxt = 4
+            for at, sym in ((1, pa_), (3, pb_)):
+                if sym is not None:
+                    g.add_node(nxt, symbol=sym)
+                    nxt += 1
+            for u, v in ((0, 1), (1, 2), (2, 3), (3, 0)):
+                g.add_edge(u, v, bond=1)
+            nxt = 4
+            for at, sym in ((1, pa_), (3, pb_)):
+                if sym is not None:
+                    g.add_edge(at, nxt, bond=1)
+                    nxt += 1
+            hosts.append((g, 0))
+            hosts.append((reverse_adjacency(g), 0))
+    leafs = ["R", "O", "S", "C"]
+    pats = []
+    combos = [((a,), (b,)) for a in leafs for b in leafs]
+    combos += [(tuple(ab), (c,)) for ab in it.combinations_with_replacement(leafs, 2) for c in leafs]
+    for l1, l2 in combos:
+        for first in (0, 1):
+            branches = (l1, l2) if first == 0 else (l2, l1)
+            p = nx.Graph()
+            p.add_node(0, symbol="N")
+            nxt = 1
+            for ls in branches:
+                b = nxt
+                p.add_node(b, symbol="C")
+                p.add_edge(0, b, bond=1)
+                nxt += 1
+                for sym in ls:
+                    p.add_node(nxt, symbol=sym)
+                    p.add_edge(b, nxt, bond=1)
+                    nxt += 1
+            pats.append(p)
+    if tier == "thorough":
+        pats = pats + [reverse_adjacency(p) for p in pats]
+    for (w, ic), hsel in ((("R", False), hosts), (("R", True), hosts[::8])):
+        for hk in range(0, len(hsel), hbundle):
+            for k in range(0, len(pats), pbundle):
+                yield {"op": "multi", "Hs": hsel[hk:hk + hbundle], "Ps": pats[k:k + pbundle],
+                       "G": hsel[hk][0], "P": pats[k], "a": 0, "pa": 0, "w": w, "ic": ic,
+                       "cmtn": [], "kind": "fork", "scheme": "fork-scope"}
+
+
 def interleave(main, extra):
     """spread the cases of [extra] evenly through [main] (so that every generated Coq file gets its share)"""
     main, extra = list(main), list(extra)
@@ -508,7 +690,82 @@ def corpus_cases():
 # ----------------------------------------------------------------------------------------------
 # implementation
 
+def _clean_default():
+    """undo what a defective constructor may have left in its mutable default argument, so that one
+    defect gives targeted reports instead of poisoning every later case of the run"""
+    d = PermutationMapper.__init__.__defaults__
+    for x in d or ():
+        if isinstance(x, list):
+            del x[:]
+
+
+def build_mapper(c, msgs):
+    """the mapper for the case, constructed through the case's HISTORY:
+      None           PermutationMapper(w, ic, fresh copy of cmtn)
+      "default"      (cmtn = []) m1 = PermutationMapper(w, ic); m1.can_map_to_nothing += extra;
+                     the case runs with a FRESH default-constructed mapper
+      "caller-attr"  L = list(cmtn); m1 = PermutationMapper(w, ic, L); m1.can_map_to_nothing += extra;
+                     the case runs with m2 = PermutationMapper(w, ic, L)       (the original arguments)
+      "caller-list"  L = list(cmtn); m = PermutationMapper(w, ic, L); L += extra (or L.clear());
+                     the case runs with m       (editing the caller's list later must not matter)
+      "shared"       L = list(cmtn); ma = PermutationMapper(w, ic, L); mb = PermutationMapper(w', ic, L) with
+                     another wildcard; the case runs with ma
+    In every history the answer must be the model's for the ORIGINAL (w, ic, cmtn); object-identity and
+    caller-list invariants are reported through py_invariants."""
+    w, ic, cmtn = c["w"], c["ic"], list(c["cmtn"])
+    hist = c.get("hist")
+    extra = list(c.get("hist_extra") or ["H"])
+    if hist is None:
+        return PermutationMapper(wildcard=w, ignore_case=ic, can_map_to_nothing=list(cmtn))
+    if hist == "default" and not cmtn:
+        m0 = PermutationMapper(wildcard=w, ignore_case=ic)
+        m1 = PermutationMapper(wildcard=w, ignore_case=ic)
+        if m0.can_map_to_nothing is m1.can_map_to_nothing:
+            msgs.append("two default-constructed PermutationMappers share one can_map_to_nothing list object")
+        m1.can_map_to_nothing.extend(extra)
+        m2 = PermutationMapper(wildcard=w, ignore_case=ic)
+        if list(m2.can_map_to_nothing) != []:
+            msgs.append("a default-constructed PermutationMapper has can_map_to_nothing = %r after the list of an "
+                        "earlier mapper was edited" % (m2.can_map_to_nothing,))
+        return m2
+    L = list(cmtn)
+    m1 = PermutationMapper(wildcard=w, ignore_case=ic, can_map_to_nothing=L)
+    if m1.can_map_to_nothing is L:
+        msgs.append("PermutationMapper stores the caller's can_map_to_nothing list object instead of a copy")
+    if L != cmtn:
+        msgs.append("PermutationMapper.__init__ modified the caller's list: %r -> %r" % (cmtn, L))
+    if hist == "caller-list":
+        if extra == ["R"] and L:
+            del L[:]
+        else:
+            L.extend(extra)
+        return m1
+    if hist == "shared":
+        wb = "H" if w != "H" else "R"
+        mb = PermutationMapper(wildcard=wb, ignore_case=ic, can_map_to_nothing=L)
+        if mb.can_map_to_nothing is m1.can_map_to_nothing:
+            msgs.append("two PermutationMappers built from the same caller list share one can_map_to_nothing object")
+        if L != cmtn:
+            msgs.append("constructing a second mapper modified the caller's list: %r -> %r" % (cmtn, L))
+        return m1
+    # "caller-attr" (also "default" with a non-empty cmtn)
+    m1.can_map_to_nothing.extend(extra)
+    if L != cmtn:
+        msgs.append("editing a mapper's can_map_to_nothing attribute changed the caller's list: %r -> %r" % (cmtn, L))
+    return PermutationMapper(wildcard=w, ignore_case=ic, can_map_to_nothing=L)
+
+
 def run_impl(c):
+    msgs = []
+    try:
+        return _run_impl(c, msgs)
+    finally:
+        c["_inv"] = msgs
+        if c.get("hist"):
+            _clean_default()
+
+
+def _run_impl(c, msgs):
     if c["op"] == "multi":
         mapper = PermutationMapper(wildcard=c["w"], ignore_case=c["ic"], can_map_to_nothing=list(c["cmtn"]))
         outs, mutated = [], False
@@ -518,7 +775,10 @@ def run_impl(c):
                 g = gens.copy_exact(h0)
                 p = gens.copy_exact(p0)
                 try:
-                    row.append(("ok", map_subgraph(g, a, p, mapper)))
+                    if c.get("pa") is None:
+                        row.append(("ok", map_subgraph(g, a, p, mapper)))
+                    else:
+                        row.append(("ok", map_subgraph(g, a, p, mapper, subgraph_anchor=c["pa"])))
                 except KeyError as e:
                     row.append(("KeyError", str(e)))
                 mutated = mutated or not (gens.graphs_identical(g, h0) and gens.graphs_identical(p, p0))
@@ -527,7 +787,7 @@ def run_impl(c):
         return ("multi", outs)
     g = gens.copy_exact(c["G"])
     p = gens.copy_exact(c["P"])
-    mapper = PermutationMapper(wildcard=c["w"], ignore_case=c["ic"], can_map_to_nothing=list(c["cmtn"]))
+    mapper = build_mapper(c, msgs)
     try:
         if c["op"] == "anchored":
             r = map_anchored_subgraph(g, c["a"], p, c["pa"], mapper)
@@ -547,7 +807,7 @@ def run_impl(c):
 
 
 def py_invariants(c, out):
-    return ["the matcher mutated one of its argument graphs"] if c.get("_mutated") else []
+    return (["the matcher mutated one of its argument graphs"] if c.get("_mutated") else []) + list(c.get("_inv") or [])
 
 
 # ----------------------------------------------------------------------------------------------
@@ -608,7 +868,7 @@ def out_term(c, out):
 
 def model_expr(c):
     if c["op"] == "multi":
-        return "map (fun Ga => map (fun P => map_subgraph (fst Ga) P $mp (snd Ga) None) $Ps) $Gs"
+        return "map (fun Ga => map (fun P => map_subgraph (fst Ga) P $mp (snd Ga) %s) $Ps) $Gs" % ct.opt(c.get("pa"), ct.z)
     if c["op"] == "anchored":
         return "map_anchored_subgraph $G $P $mp %s %s" % (ct.z(c["a"]), ct.z(c["pa"]))
     if c["op"] == "sub":
@@ -660,12 +920,12 @@ def _multi_spec(c, fn):
     return ("forallb (fun Ga => wfb (fst Ga)) $Gs && forallb wfb $Ps && (Nat.eqb (List.length $Gs) (List.length $out)) && "
             "forallb (fun Gr => (Nat.eqb (List.length $Ps) (List.length (snd Gr))) && "
             "forallb (fun Po => match snd Po with Ok rs => %s | _ => false end) (combine $Ps (snd Gr))) (combine $Gs $out)"
-            % (fn % {"wic": wic(c)}))
+            % (fn % {"wic": wic(c), "pas": "(nodes (fst Po))" if c.get("pa") is None else zlist([c["pa"]])}))
 
 
 def _spec3_expr(c, out):
     if c["op"] == "multi":
-        return _multi_spec(c, "c03_sub_okb %(wic)s (fst (fst Gr)) (snd (fst Gr)) (fst Po) (nodes (fst Po)) rs")
+        return _multi_spec(c, "c03_sub_okb %(wic)s (fst (fst Gr)) (snd (fst Gr)) (fst Po) %(pas)s rs")
     if c["cmtn"] or not all_syms(c):
         return "true"
     if c["op"] == "anchored":
@@ -684,7 +944,7 @@ def _spec4_expr(c, out):
     """C04 on the implementation's output: the full statement for can_map_to_nothing = [] (all nodes
     carrying symbols), the partial-embedding statement (C04_gen) for every anchored call"""
     if c["op"] == "multi":      # ring-scope patterns are trees: connected
-        return _multi_spec(c, "c04_sub_okb %(wic)s true (fst (fst Gr)) (snd (fst Gr)) (fst Po) (nodes (fst Po)) rs")
+        return _multi_spec(c, "c04_sub_okb %(wic)s true (fst (fst Gr)) (snd (fst Gr)) (fst Po) %(pas)s rs")
     partial = None
     if c["op"] == "anchored":
         partial = "c04_partial_okb %s $G %s $P %s $out" % (wic(c), ct.z(c["a"]), ct.z(c["pa"]))
@@ -714,22 +974,23 @@ def base_defs(c, out):
 
 def describe(c):
     if c["op"] == "multi":
-        return {"op": "multi", "Hs": [[ct.graph_py(h), a] for h, a in c["Hs"]], "Ps": [ct.graph_py(p) for p in c["Ps"]], "pa": None,
+        return {"op": "multi", "Hs": [[ct.graph_py(h), a] for h, a in c["Hs"]], "Ps": [ct.graph_py(p) for p in c["Ps"]], "pa": c.get("pa"),
                 "w": c["w"], "ic": c["ic"], "cmtn": list(c["cmtn"]), "kind": c["kind"], "scheme": c["scheme"]}
     return {"op": c["op"], "G": ct.graph_py(c["G"]), "P": ct.graph_py(c["P"]), "a": c["a"], "pa": c["pa"],
-            "w": c["w"], "ic": c["ic"], "cmtn": list(c["cmtn"]), "kind": c["kind"], "scheme": c["scheme"]}
+            "w": c["w"], "ic": c["ic"], "cmtn": list(c["cmtn"]), "kind": c["kind"], "scheme": c["scheme"],
+            "hist": c.get("hist"), "hist_extra": c.get("hist_extra")}
 
 
 def from_json(d):
     if d["op"] == "multi":
         ps = [ct.graph_from_py(p) for p in d["Ps"]]
         hs = [(ct.graph_from_py(h), a) for h, a in d["Hs"]]
-        return {"op": "multi", "Hs": hs, "G": hs[0][0], "a": hs[0][1], "Ps": ps, "P": ps[0], "pa": None,
+        return {"op": "multi", "Hs": hs, "G": hs[0][0], "a": hs[0][1], "Ps": ps, "P": ps[0], "pa": d.get("pa"),
                 "w": d["w"], "ic": d["ic"], "cmtn": list(d["cmtn"]), "kind": d.get("kind", "replay"),
                 "scheme": d.get("scheme", "replay")}
     return {"op": d["op"], "G": ct.graph_from_py(d["G"]), "P": ct.graph_from_py(d["P"]), "a": d["a"], "pa": d["pa"],
             "w": d["w"], "ic": d["ic"], "cmtn": list(d["cmtn"]), "kind": d.get("kind", "replay"),
-            "scheme": d.get("scheme", "replay")}
+            "scheme": d.get("scheme", "replay"), "hist": d.get("hist"), "hist_extra": d.get("hist_extra")}
 
 
 def describe_out(out):
@@ -749,8 +1010,9 @@ def describe_out(out):
 def key(c):
     if c["op"] == "multi":
         return ("multi", tuple((ct.graph_canon(h), a) for h, a in c["Hs"]), tuple(ct.graph_canon(p) for p in c["Ps"]),
-                c["w"], c["ic"])
-    return (c["op"], ct.graph_canon(c["G"]), ct.graph_canon(c["P"]), c["a"], c["pa"], c["w"], c["ic"], tuple(c["cmtn"]))
+                c["w"], c["ic"], c.get("pa"))
+    return (c["op"], ct.graph_canon(c["G"]), ct.graph_canon(c["P"]), c["a"], c["pa"], c["w"], c["ic"], tuple(c["cmtn"]),
+            c.get("hist"), tuple(c.get("hist_extra") or ()))
 
 
 def verdict(out):
